@@ -5,56 +5,58 @@
 (* Settings.tla) and the DOCUMENTED default of every field, transcribed    *)
 (* from the class docstrings ("(Default: ...)") at the pinned commit.      *)
 (* Values are strings; numbers are compared numerically by the harness.    *)
+(* warns = "T": __enter__ emits a (deprecation) warning, which a caller may *)
+(* have escalated to an exception.                                         *)
 (* This table is the oracle for "outside all blocks each setting reports   *)
 (* its documented default"; it is deliberately not derived from the code.  *)
 (***************************************************************************)
 EXTENDS Integers, Sequences, FiniteSets, TLC, Json, IOUtils
 
 Catalog == <<
-  [name |-> "_linalg_dtype_symeig", where |-> "settings", kind |-> "value", default |-> [v |-> "torch.float64"]],
-  [name |-> "_linalg_dtype_cholesky", where |-> "settings", kind |-> "value", default |-> [v |-> "torch.float64"]],
-  [name |-> "cg_tolerance", where |-> "settings", kind |-> "value", default |-> [v |-> "1"]],
-  [name |-> "cholesky_jitter", where |-> "settings", kind |-> "dtypeLO", default |-> [f |-> "1e-06", d |-> "1e-08", h |-> "None"]],
-  [name |-> "cholesky_max_tries", where |-> "settings", kind |-> "value", default |-> [v |-> "3"]],
-  [name |-> "ciq_samples", where |-> "settings", kind |-> "flag", default |-> [state |-> "F"]],
-  [name |-> "debug", where |-> "settings", kind |-> "flag", default |-> [state |-> "T"]],
-  [name |-> "detach_test_caches", where |-> "settings", kind |-> "flag", default |-> [state |-> "T"]],
-  [name |-> "deterministic_probes", where |-> "settings", kind |-> "flag", default |-> [state |-> "F"]],
-  [name |-> "eval_cg_tolerance", where |-> "settings", kind |-> "value", default |-> [v |-> "0.01"]],
-  [name |-> "fast_computations", where |-> "settings", kind |-> "fc", default |-> [root |-> "T", logprob |-> "T", solves |-> "T"]],
-  [name |-> "fast_pred_var", where |-> "settings", kind |-> "fpv", default |-> [state |-> "F", probes |-> "1"]],
-  [name |-> "fast_pred_samples", where |-> "settings", kind |-> "flag", default |-> [state |-> "F"]],
-  [name |-> "lazily_evaluate_kernels", where |-> "settings", kind |-> "flag", default |-> [state |-> "T"]],
-  [name |-> "linalg_dtypes", where |-> "settings", kind |-> "ld", default |-> [symeig |-> "torch.float64", chol |-> "torch.float64"]],
-  [name |-> "max_eager_kernel_size", where |-> "settings", kind |-> "value", default |-> [v |-> "512"]],
-  [name |-> "max_cholesky_size", where |-> "settings", kind |-> "value", default |-> [v |-> "800"]],
-  [name |-> "max_cg_iterations", where |-> "settings", kind |-> "value", default |-> [v |-> "1000"]],
-  [name |-> "max_lanczos_quadrature_iterations", where |-> "settings", kind |-> "value", default |-> [v |-> "20"]],
-  [name |-> "max_preconditioner_size", where |-> "settings", kind |-> "value", default |-> [v |-> "15"]],
-  [name |-> "max_root_decomposition_size", where |-> "settings", kind |-> "value", default |-> [v |-> "100"]],
-  [name |-> "memory_efficient", where |-> "settings", kind |-> "flag", default |-> [state |-> "F"]],
-  [name |-> "min_preconditioning_size", where |-> "settings", kind |-> "value", default |-> [v |-> "2000"]],
-  [name |-> "min_variance", where |-> "settings", kind |-> "dtypeGP", default |-> [f |-> "1e-06", d |-> "1e-10", h |-> "0.001"]],
-  [name |-> "minres_tolerance", where |-> "settings", kind |-> "value", default |-> [v |-> "0.0001"]],
-  [name |-> "num_contour_quadrature", where |-> "settings", kind |-> "value", default |-> [v |-> "15"]],
-  [name |-> "num_gauss_hermite_locs", where |-> "settings", kind |-> "value", default |-> [v |-> "20"]],
-  [name |-> "num_likelihood_samples", where |-> "settings", kind |-> "value", default |-> [v |-> "10"]],
-  [name |-> "num_trace_samples", where |-> "settings", kind |-> "value", default |-> [v |-> "10"]],
-  [name |-> "observation_nan_policy", where |-> "settings", kind |-> "value", default |-> [v |-> "ignore"]],
-  [name |-> "preconditioner_tolerance", where |-> "settings", kind |-> "value", default |-> [v |-> "0.001"]],
-  [name |-> "prior_mode", where |-> "settings", kind |-> "flag", default |-> [state |-> "F"]],
-  [name |-> "sgpr_diagonal_correction", where |-> "settings", kind |-> "flag", default |-> [state |-> "T"]],
-  [name |-> "skip_logdet_forward", where |-> "settings", kind |-> "flag", default |-> [state |-> "F"]],
-  [name |-> "skip_posterior_variances", where |-> "settings", kind |-> "flag", default |-> [state |-> "F"]],
-  [name |-> "terminate_cg_by_size", where |-> "settings", kind |-> "flag", default |-> [state |-> "F"]],
-  [name |-> "trace_mode", where |-> "settings", kind |-> "flag", default |-> [state |-> "F"]],
-  [name |-> "tridiagonal_jitter", where |-> "settings", kind |-> "value", default |-> [v |-> "1e-06"]],
-  [name |-> "use_keops", where |-> "settings", kind |-> "flag", default |-> [state |-> "T"]],
-  [name |-> "use_toeplitz", where |-> "settings", kind |-> "flag", default |-> [state |-> "T"]],
-  [name |-> "variational_cholesky_jitter", where |-> "settings", kind |-> "dtypeGP", default |-> [f |-> "0.0001", d |-> "1e-06", h |-> "None"]],
-  [name |-> "verbose_linalg", where |-> "settings", kind |-> "flag", default |-> [state |-> "F"]],
-  [name |-> "checkpoint_kernel", where |-> "beta_features", kind |-> "value", default |-> [v |-> "0"]],
-  [name |-> "default_preconditioner", where |-> "beta_features", kind |-> "flag", default |-> [state |-> "F"]]
+  [name |-> "_linalg_dtype_symeig", where |-> "settings", kind |-> "value", warns |-> "F", default |-> [v |-> "torch.float64"]],
+  [name |-> "_linalg_dtype_cholesky", where |-> "settings", kind |-> "value", warns |-> "F", default |-> [v |-> "torch.float64"]],
+  [name |-> "cg_tolerance", where |-> "settings", kind |-> "value", warns |-> "F", default |-> [v |-> "1"]],
+  [name |-> "cholesky_jitter", where |-> "settings", kind |-> "dtypeLO", warns |-> "F", default |-> [f |-> "1e-06", d |-> "1e-08", h |-> "None"]],
+  [name |-> "cholesky_max_tries", where |-> "settings", kind |-> "value", warns |-> "F", default |-> [v |-> "3"]],
+  [name |-> "ciq_samples", where |-> "settings", kind |-> "flag", warns |-> "F", default |-> [state |-> "F"]],
+  [name |-> "debug", where |-> "settings", kind |-> "flag", warns |-> "F", default |-> [state |-> "T"]],
+  [name |-> "detach_test_caches", where |-> "settings", kind |-> "flag", warns |-> "F", default |-> [state |-> "T"]],
+  [name |-> "deterministic_probes", where |-> "settings", kind |-> "flag", warns |-> "F", default |-> [state |-> "F"]],
+  [name |-> "eval_cg_tolerance", where |-> "settings", kind |-> "value", warns |-> "F", default |-> [v |-> "0.01"]],
+  [name |-> "fast_computations", where |-> "settings", kind |-> "fc", warns |-> "F", default |-> [root |-> "T", logprob |-> "T", solves |-> "T"]],
+  [name |-> "fast_pred_var", where |-> "settings", kind |-> "fpv", warns |-> "F", default |-> [state |-> "F", probes |-> "1"]],
+  [name |-> "fast_pred_samples", where |-> "settings", kind |-> "flag", warns |-> "F", default |-> [state |-> "F"]],
+  [name |-> "lazily_evaluate_kernels", where |-> "settings", kind |-> "flag", warns |-> "F", default |-> [state |-> "T"]],
+  [name |-> "linalg_dtypes", where |-> "settings", kind |-> "ld", warns |-> "F", default |-> [symeig |-> "torch.float64", chol |-> "torch.float64"]],
+  [name |-> "max_eager_kernel_size", where |-> "settings", kind |-> "value", warns |-> "F", default |-> [v |-> "512"]],
+  [name |-> "max_cholesky_size", where |-> "settings", kind |-> "value", warns |-> "F", default |-> [v |-> "800"]],
+  [name |-> "max_cg_iterations", where |-> "settings", kind |-> "value", warns |-> "F", default |-> [v |-> "1000"]],
+  [name |-> "max_lanczos_quadrature_iterations", where |-> "settings", kind |-> "value", warns |-> "F", default |-> [v |-> "20"]],
+  [name |-> "max_preconditioner_size", where |-> "settings", kind |-> "value", warns |-> "F", default |-> [v |-> "15"]],
+  [name |-> "max_root_decomposition_size", where |-> "settings", kind |-> "value", warns |-> "F", default |-> [v |-> "100"]],
+  [name |-> "memory_efficient", where |-> "settings", kind |-> "flag", warns |-> "F", default |-> [state |-> "F"]],
+  [name |-> "min_preconditioning_size", where |-> "settings", kind |-> "value", warns |-> "F", default |-> [v |-> "2000"]],
+  [name |-> "min_variance", where |-> "settings", kind |-> "dtypeGP", warns |-> "F", default |-> [f |-> "1e-06", d |-> "1e-10", h |-> "0.001"]],
+  [name |-> "minres_tolerance", where |-> "settings", kind |-> "value", warns |-> "F", default |-> [v |-> "0.0001"]],
+  [name |-> "num_contour_quadrature", where |-> "settings", kind |-> "value", warns |-> "F", default |-> [v |-> "15"]],
+  [name |-> "num_gauss_hermite_locs", where |-> "settings", kind |-> "value", warns |-> "F", default |-> [v |-> "20"]],
+  [name |-> "num_likelihood_samples", where |-> "settings", kind |-> "value", warns |-> "F", default |-> [v |-> "10"]],
+  [name |-> "num_trace_samples", where |-> "settings", kind |-> "value", warns |-> "F", default |-> [v |-> "10"]],
+  [name |-> "observation_nan_policy", where |-> "settings", kind |-> "value", warns |-> "F", default |-> [v |-> "ignore"]],
+  [name |-> "preconditioner_tolerance", where |-> "settings", kind |-> "value", warns |-> "F", default |-> [v |-> "0.001"]],
+  [name |-> "prior_mode", where |-> "settings", kind |-> "flag", warns |-> "F", default |-> [state |-> "F"]],
+  [name |-> "sgpr_diagonal_correction", where |-> "settings", kind |-> "flag", warns |-> "F", default |-> [state |-> "T"]],
+  [name |-> "skip_logdet_forward", where |-> "settings", kind |-> "flag", warns |-> "F", default |-> [state |-> "F"]],
+  [name |-> "skip_posterior_variances", where |-> "settings", kind |-> "flag", warns |-> "F", default |-> [state |-> "F"]],
+  [name |-> "terminate_cg_by_size", where |-> "settings", kind |-> "flag", warns |-> "F", default |-> [state |-> "F"]],
+  [name |-> "trace_mode", where |-> "settings", kind |-> "flag", warns |-> "F", default |-> [state |-> "F"]],
+  [name |-> "tridiagonal_jitter", where |-> "settings", kind |-> "value", warns |-> "F", default |-> [v |-> "1e-06"]],
+  [name |-> "use_keops", where |-> "settings", kind |-> "flag", warns |-> "F", default |-> [state |-> "T"]],
+  [name |-> "use_toeplitz", where |-> "settings", kind |-> "flag", warns |-> "F", default |-> [state |-> "T"]],
+  [name |-> "variational_cholesky_jitter", where |-> "settings", kind |-> "dtypeGP", warns |-> "F", default |-> [f |-> "0.0001", d |-> "1e-06", h |-> "None"]],
+  [name |-> "verbose_linalg", where |-> "settings", kind |-> "flag", warns |-> "F", default |-> [state |-> "F"]],
+  [name |-> "checkpoint_kernel", where |-> "beta_features", kind |-> "value", warns |-> "T", default |-> [v |-> "0"]],
+  [name |-> "default_preconditioner", where |-> "beta_features", kind |-> "flag", warns |-> "F", default |-> [state |-> "F"]]
 >>
 
 Kinds == {"flag", "value", "dtypeGP", "dtypeLO", "fpv", "fc", "ld"}
